@@ -73,6 +73,54 @@ def h_roundtrip(env, n=1, order=None, via="motl", holes=(), index="default"):
                 env.check("loaded_cell_%d_%s" % (i, c), env.eq(back[c].iloc[i], expect(i, c)))
 
 
+def h_sequence(env, n1=2, n2=3, via="emmotl", shrink=True):
+    """Histories on ONE file name: write list A, load it, write a different list B (another N, other cells) to the same
+    path, load again -> B; then load -> drop a row (remove_feature) -> write through the loaded object's own writer ->
+    load -> the shortened list with a matching header."""
+    cm = env.module("cryomotl")
+    path = env.path("same.em")
+
+    def table(tag, n):
+        vals = [{c: env.real("%s%d_%s" % (tag, i, c), -1e6, 1e6) for c in COLS} for i in range(n)]
+        if env.mode == "sym":
+            df = pd.DataFrame({c: objcol([r[c] for r in vals]) for c in COLS}, columns=COLS)
+        else:
+            df = pd.DataFrame({c: np.array([float(r[c]) for r in vals]) for c in COLS}, columns=COLS)
+        return vals, df
+
+    def check_file(tag, vals):
+        fmt, dtype, dims, get = env.file_view(path)
+        env.check(tag + "_header_dims", env.true() if tuple(int(d) for d in dims) == (20, len(vals), 1) else _false(env))
+        back = cm.Motl.load(path).df
+        ok = list(back.columns) == COLS and back.shape[0] == len(vals)
+        env.check(tag + "_loaded_shape", env.true() if ok else _false(env))
+        if ok:
+            for i in range(len(vals)):
+                for c in COLS:
+                    env.check("%s_loaded_cell_%d_%s" % (tag, i, c), env.eq(back[c].iloc[i], _f32(env, vals[i][c])))
+
+    va, dfa = table("a", n1)
+    (cm.EmMotl(dfa) if via == "emmotl" else cm.Motl(dfa)).write_out(*([path] if via == "emmotl" else [path, "emmotl"]))
+    check_file("first", va)
+    vb, dfb = table("b", n2)
+    (cm.EmMotl(dfb) if via == "emmotl" else cm.Motl(dfb)).write_out(*([path] if via == "emmotl" else [path, "emmotl"]))
+    check_file("second_write_to_same_name", vb)
+    if shrink:
+        # distinct concrete tomogram numbers so that remove_feature drops exactly row 0
+        for i in range(n2):
+            vb[i]["tomo_id"] = float(i + 1)
+        _, dfb2 = (vb, None)
+        if env.mode == "sym":
+            dfb2 = pd.DataFrame({c: objcol([r[c] for r in vb]) for c in COLS}, columns=COLS)
+        else:
+            dfb2 = pd.DataFrame({c: np.array([float(r[c]) for r in vb]) for c in COLS}, columns=COLS)
+        cm.EmMotl(dfb2).write_out(path)
+        m = cm.EmMotl(path)                     # a list LOADED from the file
+        m.remove_feature("tomo_id", 1)
+        m.write_out(path)                       # ... written back through its own writer after it shrank
+        check_file("loaded_shrunk_rewritten", vb[1:])
+
+
 def orders(tier, seed):
     out = [list(range(20)), list(range(19, -1, -1))]
     for k in range(19):
@@ -95,4 +143,6 @@ def jobs(tier, seed):
     # N equal to / next to the number of fields (a square table is the only shape a transposition leaves well-formed)
     j.append(("h_roundtrip", {"n": 20, "order": list(range(5, 20)) + list(range(5)), "via": "motl", "holes": [[19, 0]]}))
     j.append(("h_roundtrip", {"n": 21, "order": list(range(20)), "via": "emmotl", "holes": [], "index": "gaps"}))
+    j.append(("h_sequence", {"n1": 2, "n2": 3, "via": "emmotl"}))
+    j.append(("h_sequence", {"n1": 3, "n2": 1, "via": "motl", "shrink": False}))
     return j
